@@ -25,7 +25,7 @@ negative flow, locked chemicals on the right side after a VLE.  C04: defining eq
 at the result through paths that do not go through the stream's memoised properties: mixture.xH /
 xS on dense rows, an in-harness Rachford-Rice (Raoult) flash, an in-harness gamma-phi successive
 substitution built on thermo.Gamma objects, LiquidFugacities / GasFugacities at the result, and a
-twin universe in which every flow is multiplied by k.  Numeric bounds: section BOUNDS below, each
+twin universe in which every flow is multiplied by k.  Numeric bounds: section MULT below, each
 with its derivation and calibration numbers (DESIGN section 9).
 """
 import hashlib
@@ -284,26 +284,15 @@ VLE_K_TOL = 1e-6
 VLE_HHAT_TOL = 1e-6
 MIX_T_TOL = 1e-6
 
-BOUNDS = {
-    # |H(result) - H_spec| / F_mass  [kJ/kg]  after vle(H=, P=): the final lever step makes the
-    # balance exact or xsolve_T_at_HP closes it to Mixture.T_tol * Cp (~1e-6 K * 4 kJ/kg/K)
-    'PH': 1e-3,
-    # |S(result) - S_spec| / F_mass  [kJ/kg/K] after vle(S=, P=)
-    'PS': 1e-3,
-    # vle(H=, T=) / vle(S=, T=): IQ_interpolation on P stops at |dP| < P_tol or residual < 1e-6:
-    # bound = c_hat * 1e-6 + c_slope * |d(Hhat)/dP| * P_tol, slope from the envelope
-    'TH_hat': 1e-3, 'TH_slope': 10.,
-    'TS_hat': 1e-3, 'TS_slope': 10.,
-    # V specification: |V_eq(T_res) - V_spec| <= V_mult * (V_tol + K_tol) + X_mult * |dV/dx| * x_tol
-    'V_mult': 100., 'X_mult': 100.,
-    # phase boundary: relative margin around P_bubble / P_dew inside which either answer is accepted
-    'PB_margin': 1e-4,
-    # iso-fugacity |ln(f_l / f_g)| for two-phase TP results (K_tol = 1e-6 on ln K)
-    'isofug': 1e-3,
-    # ideal package vs Rachford-Rice: max |v_i - v_i_ref| / F_total
-    'RR_TP': 1e-4, 'RR_other': 1e-3,
-    # scaling twin: max |twin_flow - k * flow| / (k * F_total), |T' - T| [K], |P'/P - 1|
-    'scale_flow': 1e-3, 'scale_T': 1e-3, 'scale_P': 1e-4,
+# Every tolerance clause is  residual <= MULT[clause] * unit,  where `unit` is the solver's own
+# resolution propagated to the residual (computed per case, see c04_* below) and MULT is frozen
+# from the calibration batch (>= 10 x the largest residual/unit seen on fresh objects).
+MULT = {
+    'spec-H': 1e3, 'spec-S': 1e3, 'spec-H-T': 1e3, 'spec-S-T': 1e3,
+    'spec-V': 1e3, 'spec-V-stream': 1e3,
+    'phase-boundary': 1e3, 'iso-fugacity': 1e3,
+    'ideal-RR': 1e3, 'ideal-RR-V': 1e3, 'ideal-RR-HS': 1e3, 'ideal-RR-xy': 1e3,
+    'scaling': 1e3, 'scaling-T': 1e3, 'scaling-P': 1e3,
 }
 
 # ====================================================================== swarm configuration
@@ -1276,17 +1265,19 @@ class EqWorld(BaseWorld):
                               {'before': before.to_json(), 'after': after.to_json(), 'event': ev})
 
     # ------------------------------------------------------------ C04
-    def judge(self, clause, resid, bound, msg, detail):
-        """A tolerance clause: recorded in calibration mode, judged otherwise."""
+    def judge(self, clause, resid, unit, msg, detail):
+        """A tolerance clause  residual <= MULT[clause] * unit : recorded in calibration mode,
+        judged otherwise."""
         self.stats['c04:' + clause] += 1
         if self.calib:
-            cur = self.resid.get(clause)
-            ratio = resid / bound if bound else float('inf')
-            if cur is None or not ratio <= cur[0]:
-                self.resid[clause] = (ratio, resid, bound, msg)
+            log = getattr(self, 'resid_log', None)
+            if log is not None:
+                log[clause].append((resid / unit if unit else float('inf'), resid, unit, msg))
             return
+        bound = MULT[clause] * unit
         if not resid <= bound:
-            self.fail(clause, msg + f' (residual {resid:.6g}, bound {bound:.6g})', detail)
+            self.fail(clause, msg + f' (residual {resid:.6g}, bound {bound:.6g} = {MULT[clause]:g} x solver '
+                      f'resolution {unit:.3g})', detail)
 
     def c04_check(self, ev, name, pk, before, after, kw):
         spec = ev['spec']
@@ -1320,9 +1311,14 @@ class EqWorld(BaseWorld):
         if 'H' in spec or 'S' in spec:
             which = 'H' if 'H' in spec else 'S'
             val = float((mix.xH if which == 'H' else mix.xS)(rows_after, after.T, after.P))
+            F_mass = float(np.sum(pk.MW * after.totals()))
             resid = abs(val - kw[which]) / F_mass if F_mass > 0 else float('inf')
+            Cn = float(mix.xCn(rows_after, after.T, after.P))        # kJ/hr/K
             if 'P' in spec:
-                bound = BOUNDS['P' + which]
+                # set_PH / set_PS end with an exact lever step or with xsolve_T_at_HP / _SP, whose
+                # temperature resolution is Mixture.T_tol; the bracketing solve stops at H_hat_tol
+                unit = VLE_HHAT_TOL + (Cn if which == 'H' else Cn / after.T) / F_mass * MIX_T_TOL
+                clause = 'spec-' + which
             else:
                 # IQ_interpolation on P stops at |dP| < P_tol: propagate through d(hat)/dP of the envelope
                 slope = 0.
@@ -1333,8 +1329,9 @@ class EqWorld(BaseWorld):
                         slope = abs(hi - lo) / F_mass / max(abs(pb - pd), VLE_P_TOL)
                     except Exception:
                         slope = 0.
-                bound = BOUNDS['T' + which + '_hat'] + BOUNDS['T' + which + '_slope'] * slope * VLE_P_TOL
-            self.judge('spec-' + which, resid, bound,
+                unit = VLE_HHAT_TOL + slope * VLE_P_TOL
+                clause = 'spec-' + which + '-T'
+            self.judge(clause, resid, unit,
                        f"{name}: vle({spec}) asked for {which}={kw[which]!r} but the resulting stream has "
                        f"{which}={val!r} (per kg: {resid:.3g})", detail)
         family_ok = (pk.family is not None and pk.simple_K and cb.F_gas == 0. and cb.F_heavy == 0.
@@ -1371,7 +1368,7 @@ class EqWorld(BaseWorld):
             self.stats['c04:skip_reference_flash_not_converged'] += 1
             return
         slope = abs(Vb - Va) / (2 * h)
-        bound = BOUNDS['V_mult'] * (VLE_V_TOL + VLE_K_TOL) + BOUNDS['X_mult'] * slope * xtol
+        bound = (VLE_V_TOL + VLE_K_TOL) + slope * xtol      # the two stopping criteria of IQ_interpolation
         detail = dict(detail, V_equilibrium_at_result=V0, V_stream=V_stream, dV_dx=slope)
         self.judge('spec-V', abs(V0 - V_spec), bound,
                    f"{name}: vle({spec}) V={V_spec!r}: at the returned T={T!r}, P={P!r} the equilibrium vapour "
@@ -1390,7 +1387,7 @@ class EqWorld(BaseWorld):
         l, g = after.row('l'), after.row('g')
         Fl = float(sum(l[k] for k in idx))
         Fg = float(sum(g[k] for k in idx))
-        m = BOUNDS['PB_margin']
+        m = MULT['phase-boundary'] * VLE_K_TOL
         state = 'l' if Fg == 0. else 'g' if Fl == 0. else 'lg'
         want = 'l' if P >= pb else 'g' if P <= pd else 'lg'
         detail = dict(detail, P_bubble=pb, P_dew=pd, result_state=state)
@@ -1398,7 +1395,8 @@ class EqWorld(BaseWorld):
             if state != want:
                 # distance (relative) of P to the boundary that was crossed
                 d = min(abs(math.log(P / pb)), abs(math.log(P / pd)))
-                self.judge('phase-boundary', d, m, f'{name}: state {state} but reference says {want}', detail)
+                self.judge('phase-boundary', d, VLE_K_TOL, f'{name}: state {state} but reference says {want} '
+                           f'T={T!r} P={P!r} Pb={pb!r} Pd={pd!r}', detail)
         else:
             self.stats['c04:phase-boundary'] += 1
             if P >= pb * (1 + m) and state != 'l':
@@ -1419,7 +1417,7 @@ class EqWorld(BaseWorld):
             if np.all(f_l > 0) and np.all(f_g > 0):
                 resid = float(np.max(np.abs(np.log(f_l / f_g))))
                 detail = dict(detail, f_liquid=f_l.tolist(), f_gas=f_g.tolist())
-                self.judge('iso-fugacity', resid, BOUNDS['isofug'],
+                self.judge('iso-fugacity', resid, VLE_K_TOL,
                            f"{name}: vle(TP) two-phase result: liquid and vapour fugacities differ, "
                            f"max |ln(f_l/f_g)| = {resid:.3g}", detail)
             else:
@@ -1440,13 +1438,15 @@ class EqWorld(BaseWorld):
         g = after.row('g')
         v = np.array([g[k] for k in idx]) / F
         resid = float(np.max(np.abs(v - v_ref)))
-        bound = BOUNDS['RR_TP'] if spec == 'TP' else BOUNDS['RR_other']
+        bound = VLE_K_TOL + VLE_V_TOL
         if spec != 'TP' and cb.N_eff == 1:
             self.stats['c04:skip_ideal_pure_non_TP'] += 1
             return
         detail = dict(detail, rachford_rice={'V': V, 'K': K.tolist(), 'v_ref': (v_ref * F).tolist(),
                                              'v': (v * F).tolist()})
         clause = 'ideal-RR' if spec == 'TP' else 'ideal-RR-' + ('V' if 'V' in spec else 'HS' if ('H' in spec or 'S' in spec) else 'xy')
+        if self.calib and (cb.F_gas or cb.F_heavy):
+            clause += '+locked'
         self.judge(clause, resid, bound,
                    f"{name}: ideal package vle({spec}) at T={T!r}, P={P!r}: vapour flows differ from the "
                    f"Raoult / Rachford-Rice split by {resid:.3g} of the feed", detail)
@@ -1510,12 +1510,12 @@ class EqWorld(BaseWorld):
                 detail = {'k': k, 'before': before.to_json(), 'after': after.to_json(),
                           'twin_before': tb.to_json(), 'twin_after': ta.to_json(), 'event': ev}
                 resid = float(np.max(np.abs(ta.rows - k * after.rows))) / (k * F) if F > 0 else 0.
-                self.judge('scaling', resid, BOUNDS['scale_flow'],
+                self.judge('scaling', resid, VLE_K_TOL + VLE_V_TOL,
                            f"{name}: vle({ev['spec']}) on the same history with all flows x {k}: product flows are "
                            f"not {k} x the original ones (max deviation {resid:.3g} of the feed)", detail)
-                self.judge('scaling-T', abs(ta.T - after.T), BOUNDS['scale_T'],
+                self.judge('scaling-T', abs(ta.T - after.T), VLE_T_TOL,
                            f"{name}: vle({ev['spec']}) with all flows x {k}: T = {ta.T!r} instead of {after.T!r}", detail)
-                self.judge('scaling-P', abs(ta.P / after.P - 1.), BOUNDS['scale_P'],
+                self.judge('scaling-P', abs(ta.P / after.P - 1.), VLE_P_TOL / after.P,
                            f"{name}: vle({ev['spec']}) with all flows x {k}: P = {ta.P!r} instead of {after.P!r}", detail)
             else:
                 self.stats['scale:skip'] += 1
